@@ -162,6 +162,65 @@ def gen_history_case(rng, d, sub):
     return case
 
 
+def _fno_params(rng, shape, Cin, C, Cout):
+    layers = []
+    for _ in range(rng.randint(1, 2)):
+        pr = gen_layer_params(rng, gen_modes(rng, shape), C)
+        pr["kern"] = [k // 4 for k in pr["kern"]]
+        pr["act"] = rng.choice(ACTS)
+        layers.append(pr)
+    return dict(Cin=Cin, C=C, Cout=Cout, layers=layers, upW=_nums(rng, C * Cin, -16, 16), upb=_nums(rng, C, -16, 16),
+                downW=_nums(rng, Cout * C, -16, 16), downb=_nums(rng, Cout, -16, 16))
+
+
+def _vdim(vs):
+    return sum(d for _, d in vs)
+
+
+def _permuted(rng, vs):
+    """a different order of the same variables"""
+    while True:
+        out = list(vs)
+        rng.shuffle(out)
+        if out != list(vs):
+            return out
+
+
+def gen_named_case(rng, d, variant):
+    """FNOs whose input channels are several NAMED variables: fed in the model's order and in another order,
+    alone (`perm`), as members of tp.models.Parallel, or chained in tp.models.Sequential"""
+    shape = gen_shape(rng, d, 20)
+    B = rng.choice([1, 2, 3])
+    names = ["f", "g", "h"][:rng.choice([2, 2, 3])]
+    allv = [[n, rng.randint(1, 2)] for n in names]
+    case = dict(kind="named", variant=variant, f32=0, shape=shape, B=B, shifts=gen_shifts(rng, shape))
+    if variant == "perm":
+        inS = _permuted(rng, allv) if rng.random() < 0.5 else allv
+        outS = [["u", rng.randint(1, 2)]]
+        case["nets"] = [dict(inS=inS, outS=outS, **_fno_params(rng, shape, _vdim(inS), rng.randint(1, 2), _vdim(outS)))]
+        own = inS
+    elif variant == "parallel":
+        nets = []
+        for o in ("u", "w"):
+            sub = [v for v in allv if rng.random() < 0.7] or [allv[0]]
+            rng.shuffle(sub)
+            outS = [[o, rng.randint(1, 2)]]
+            nets.append(dict(inS=sub, outS=outS, **_fno_params(rng, shape, _vdim(sub), rng.randint(1, 2), _vdim(outS))))
+        case["nets"] = nets
+        own = list(nets[0]["inS"]) + [v for v in nets[1]["inS"] if v not in nets[0]["inS"]]    # Parallel.input_space
+        allv = own
+    else:
+        mid = [["u", rng.randint(1, 2)], ["v", rng.randint(1, 2)]]
+        outS = [["w", rng.randint(1, 2)]]
+        inS = _permuted(rng, allv) if rng.random() < 0.5 else allv
+        case["nets"] = [dict(inS=inS, outS=mid, **_fno_params(rng, shape, _vdim(inS), rng.randint(1, 2), _vdim(mid))),
+                        dict(inS=mid[::-1], outS=outS, **_fno_params(rng, shape, _vdim(mid), rng.randint(1, 2), _vdim(outS)))]
+        own = inS
+    case["feeds"] = [own, _permuted(rng, own)] if len(own) > 1 else [own]
+    case["data"] = {n: _nums(rng, B * _prod(shape) * dd, -24, 24) for n, dd in allv}
+    return case
+
+
 def gen_cases(ctx):
     rng = ctx.rng
     cases = []
@@ -187,6 +246,9 @@ def gen_cases(ctx):
     # histories: the same object on several grids
     for _ in range(ctx.scale(36, 360)):
         cases.append(gen_history_case(rng, rng.choice([1, 1, 1, 2, 2, 3]), rng.choice(["layer", "layer", "fno"])))
+    # several named input variables: permuted feeds, Parallel, Sequential
+    for _ in range(ctx.scale(45, 450)):
+        cases.append(gen_named_case(rng, rng.choice([1, 1, 2, 2, 3]), rng.choice(["perm", "perm", "parallel", "sequential"])))
     cases.append(dict(kind="prog"))
     return cases
 
@@ -353,11 +415,19 @@ def fno_lines(case):
     return [f"{head} {lst(case['x'][b * n:(b + 1) * n], f)}" for b in range(B)]
 
 
+def mk_space(tp, vs):
+    sp = tp.spaces.Rn(vs[0][0], vs[0][1])
+    for n, d in vs[1:]:
+        sp = sp * tp.spaces.Rn(n, d)
+    return sp
+
+
 def build_fno(tp, torch, case, rd, cd):
     from torchphysics.models.FNO import FNO
     acts = {"tanh": torch.nn.Tanh, "relu": torch.nn.ReLU, "id": torch.nn.Identity}
     Cin, C, Cout = case["Cin"], case["C"], case["Cout"]
-    Fs, Us = tp.spaces.Rn("f", Cin), tp.spaces.Rn("u", Cout)
+    Fs = mk_space(tp, case["inS"]) if "inS" in case else tp.spaces.Rn("f", Cin)
+    Us = mk_space(tp, case["outS"]) if "outS" in case else tp.spaces.Rn("u", Cout)
     ls = case["layers"]
     net = FNO(Fs, Us, fourier_layers=len(ls), hidden_channels=C, fourier_modes=[list(l["modes"]) for l in ls],
               activations=[acts[l["act"]]() for l in ls], skip_connections=[bool(l["skip"]) for l in ls],
@@ -437,6 +507,84 @@ def history_lines(case, res):
     return lines
 
 
+def eval_named(case):
+    tp = common.use_repo()
+    import torch
+    rd, cd = torch.float64, torch.complex128
+    shape, B, variant = case["shape"], case["B"], case["variant"]
+    problems = []
+    res = dict(problems=problems, lines=[])
+    cols = lambda layout: torch.cat([var[n] for n, _ in layout], dim=-1)
+    with torch.no_grad():
+        try:
+            var = {n: _t(torch, v, (B, *shape, len(v) // (B * _prod(shape))), rd) for n, v in case["data"].items()}
+            nets = [build_fno(tp, torch, nc, rd, cd)[0] for nc in case["nets"]]
+            # reference: every FNO is called on Points in ITS OWN variable order (no re-ordering involved),
+            # the columns are picked here with plain tensor indexing
+            if variant == "perm":
+                model = nets[0]
+                ref = nets[0](tp.spaces.Points(cols(case["nets"][0]["inS"]), nets[0].input_space)).as_tensor
+                inter = None
+            elif variant == "parallel":
+                model = tp.models.Parallel(*nets)
+                ref = torch.cat([net(tp.spaces.Points(cols(nc["inS"]), net.input_space)).as_tensor
+                                 for net, nc in zip(nets, case["nets"])], dim=-1)
+                inter = None
+            else:
+                model = tp.models.Sequential(*nets)
+                inter = nets[0](tp.spaces.Points(cols(case["nets"][0]["inS"]), nets[0].input_space)).as_tensor
+                mid = case["nets"][0]["outS"]
+                off, parts = 0, {}
+                for n, dd in mid:
+                    parts[n] = inter[..., off:off + dd]
+                    off += dd
+                ref = nets[1](tp.spaces.Points(torch.cat([parts[n] for n, _ in case["nets"][1]["inS"]], dim=-1),
+                                               nets[1].input_space)).as_tensor
+            out_dim = sum(_vdim(nc["outS"]) for nc in case["nets"]) if variant == "parallel" else _vdim(case["nets"][-1]["outS"])
+            scale = 1.0 + float(ref.abs().max())
+            for layout in case["feeds"]:
+                sp = mk_space(tp, layout)
+                f = lambda t, sp=sp: model(tp.spaces.Points(t, sp)).as_tensor
+                what = f"{variant} FNO, input variables listed as {[n for n, _ in layout]}"
+                try:
+                    y = check_relations(torch, f, cols(layout), case["shifts"], TOL_ORACLE64, what, problems)
+                except Exception as e:
+                    problems.append(f"{what}: raised on a valid input: {type(e).__name__}: {e}"[:400])
+                    continue
+                if tuple(y.shape) != (B, *shape, out_dim):
+                    problems.append(f"{what}: output of shape {tuple(y.shape)} for an input on the grid {tuple(shape)} (batch {B}); "
+                                    f"expected {(B, *shape, out_dim)}: grid axes must be preserved")
+                    continue
+                err = float((y - ref).abs().max())
+                if not err <= TOL_ORACLE64 * scale:
+                    problems.append(f"{what}: the output differs by {err:.3g} from the output for the same named data in the models' own "
+                                    f"variable order (variables are identified by name)")
+            # model requests: the Lean model does the by-name selection itself
+            f16 = lambda v: fbits(v / DEN)
+
+            def req(mode, src, nc, xrow):
+                C = nc["C"]
+                vs = lambda l: lst([f"{n} {dd}" for n, dd in l])
+                return (f"fnonamed {mode} {vs(src)} {vs(nc['inS'])} {lst(shape)} {nc['Cin']} {C} {nc['Cout']} {lst(nc['upW'], f16)} "
+                        f"{lst(nc['upb'], f16)} {len(nc['layers'])} " + " ".join(layer_tokens(l, C, True) for l in nc["layers"])
+                        + f" {lst(nc['downW'], f16)} {lst(nc['downb'], f16)} {lst([float(v) for v in xrow.flatten()], fbits)}")
+            feed = case["feeds"][-1]
+            xfeed = cols(feed)
+            for bb in range(B):
+                if variant == "perm":
+                    res["lines"].append(req("fix", feed, case["nets"][0], xfeed[bb]))
+                elif variant == "parallel":
+                    for nc in case["nets"]:
+                        res["lines"].append(req("select", feed, nc, xfeed[bb]))
+                else:
+                    res["lines"].append(req("fix", feed, case["nets"][0], xfeed[bb]))
+                    res["lines"].append(req("fix", case["nets"][0]["outS"], case["nets"][1], inter[bb]))
+            res["ref"], res["inter"] = ref.detach(), inter
+        except Exception as e:
+            res["error"] = f"{type(e).__name__}: {e}"[:300]
+    return res
+
+
 def eval_malformed(case):
     tp = common.use_repo()
     import torch
@@ -488,6 +636,9 @@ def evaluate(case):
     if k == "history":
         res = eval_history(case)
         return res, history_lines(case, res)
+    if k == "named":
+        res = eval_named(case)
+        return res, res["lines"]
     return dict(prog=eval_prog()), [f"prog {l} {s}" for l in (0, 1) for s in (0, 1)]
 
 
@@ -552,6 +703,48 @@ def judge(rep, case, res, replies):
                              dict(max_abs_diff=err), dict(first_model_values=[float(v) for v in m.flatten()[:3]]))
             rep.hist["max_model_err"] = max(rep.hist.get("max_model_err", 0.0), err / scale)
         return
+    if kind == "named":
+        variant = case["variant"]
+        rep.count(f"named:{variant}:d={len(case['shape'])}")
+        rep.count("named:feeds", len(case["feeds"]))
+        for pr in res["problems"]:
+            rep.fail(pr, case)
+        if "error" in res:
+            rep.fail(f"{variant} FNO raised on a valid configuration: {res['error']}", case)
+            return
+        if not replies:
+            return
+        if any(r.startswith(("err", "bad-op")) for r in replies):
+            rep.disagree("drivers/C20.lean `fnonamed` refused an input the implementation accepts", case, "accepted",
+                         [r[:60] for r in replies if r.startswith(("err", "bad-op"))][0])
+            return
+        rows = [torch.tensor([unfbits(v) for v in r.split()], dtype=torch.float64) for r in replies]
+        B, shape = case["B"], case["shape"]
+        per = len(rows) // B
+        try:
+            if variant == "perm":
+                m = torch.stack([rows[b].reshape(*shape, -1) for b in range(B)])
+                targets = [("output", res["ref"], m)]
+            elif variant == "parallel":
+                m = torch.stack([torch.cat([rows[b * per + i].reshape(*shape, -1) for i in range(per)], dim=-1) for b in range(B)])
+                targets = [("joined output", res["ref"], m)]
+            else:
+                m1 = torch.stack([rows[2 * b].reshape(*shape, -1) for b in range(B)])
+                m2 = torch.stack([rows[2 * b + 1].reshape(*shape, -1) for b in range(B)])
+                targets = [("first model's output", res["inter"], m1), ("output", res["ref"], m2)]
+            for nm, y, m in targets:
+                if tuple(y.shape) != tuple(m.shape):
+                    raise ValueError(f"{nm}: {tuple(y.shape)} vs {tuple(m.shape)}")
+                err = float((m - y).abs().max())
+                scale = 1.0 + float(y.abs().max())
+                if not err <= TOL_MODEL * scale:
+                    rep.disagree(f"values ({nm}) of a {variant} FNO with named input variables: drivers/C20.lean `fnonamed` "
+                                 f"(Fourier.fnoFix / fnoSelect at Float) vs the implementation, tolerance {TOL_MODEL}*(1+max|y|)", case,
+                                 dict(max_abs_diff=err), dict(first_model_values=[float(v) for v in m.flatten()[:3]]))
+                rep.hist["max_model_err"] = max(rep.hist.get("max_model_err", 0.0), err / scale)
+        except (ValueError, RuntimeError) as e:
+            rep.disagree(f"output size of a {variant} FNO: drivers/C20.lean `fnonamed` vs implementation", case, str(e)[:200], [len(r.split()) for r in replies][:4])
+        return
     if kind == "malformed":
         rep.count("malformed")
         if replies and replies[0] != res["text"]:
@@ -598,7 +791,9 @@ def run(ctx, rep, cases=None):
                 "counts per axis, channels, linear/skip/bias, batch) with dyadic data; non-trivial = grid with >= 2 nodes and a tested shift "
                 "that is not a multiple of the axis length; histories = ONE layer / FNO object called on a sequence of 4-7 grids (even/odd pairs with the "
                 "same half-spectrum shape, repeats, refinements; every call compared with the stateless model and checked with the shift relations, "
-                "band-limited histories with the resolution relation between calls); distinct = distinct (configuration, data) digests")
+                "band-limited histories with the resolution relation between calls); named = FNOs with 2-3 named input variables fed in the model's "
+                "order and in another order, alone, inside tp.models.Parallel and chained in tp.models.Sequential (output shape, by-name identity, "
+                "shift relations, Lean fnoFix/fnoSelect); distinct = distinct (configuration, data) digests")
     cases = cases if cases is not None else gen_cases(ctx)
     results, lines, spans = [], [], []
     for c in cases:
@@ -610,7 +805,7 @@ def run(ctx, rep, cases=None):
         replies = run_driver_parallel(lines)
     except common.DriverFailure:
         for c, r in zip(cases, results):
-            if c["kind"] in ("layer", "fno", "history"):
+            if c["kind"] in ("layer", "fno", "history", "named"):
                 judge(rep, c, r, [])
         rep.disagreements.clear()
         raise
@@ -620,6 +815,8 @@ def run(ctx, rep, cases=None):
             for sh in c["shifts"])
         if c["kind"] == "history":
             nontrivial = True
+        if c["kind"] == "named":
+            nontrivial = len(c["feeds"]) > 1 or c["variant"] != "perm"
         sample = None
         if c["kind"] == "history" and r.get("outs") and r["outs"][0] is not None and b > a:
             sample = dict(kind="history", sub=c["sub"], grids=c["shapes"], implementation_first_values=[float(v) for v in r["outs"][0].flatten()[:3]],
@@ -631,7 +828,7 @@ def run(ctx, rep, cases=None):
         rep.case(key_of(c), nontrivial, sample=sample, kind=f"{c['kind']}{c.get('sub', '')}{len(c.get('shape', []))}{c.get('f32', 0)}")
         judge(rep, c, r, replies[a:b])
     rep.traces_validated = sum(len(c["shapes"]) if c["kind"] == "history" else 1 for c in cases
-                               if c["kind"] in ("layer", "fno", "history") and not c.get("f32"))
+                               if c["kind"] in ("layer", "fno", "history", "named") and not c.get("f32"))
 
 
 def replay(ctx, obj):
@@ -639,7 +836,7 @@ def replay(ctx, obj):
     inp = obj.get("failing_input") or obj.get("first")
     case = {k: v for k, v in inp["input"].items() if k in
             ("kind", "f32", "shape", "C", "B", "layer", "x", "shifts", "res", "Cin", "Cout", "layers", "upW", "upb", "downW", "downb",
-             "sub", "shapes", "steps", "trig")}
+             "sub", "shapes", "steps", "trig", "variant", "nets", "feeds", "data")}
     lean = common.lean_check("C20")
     run(ctx, rep, [case])
     return common.finish(ctx, rep, lean)
